@@ -1,5 +1,7 @@
-import Driver.Util
-/-! `drv_conn`: not built yet -/
-def main : IO UInt32 := do
-  IO.eprintln "drv_conn: engine not implemented"
-  return 2
+import Driver.ConnDrv
+open Driver
+
+def main (args : List String) : IO UInt32 := do
+  let lines ← readLines (← IO.getStdin) #[]
+  ConnDrv.main lines args
+  return 0
